@@ -61,6 +61,11 @@ def reference_transformation(tier="quick", seed=0, only=None):
             for ow in (0, 3, -2):
                 for rep in range(1 if tier == "quick" else 4):
                     problem = mk(fmt) if fmt else mk()
+                    if rep % 2 == 0:
+                        # callbacks that hand out the SAME (memoised) array / matrix objects on every call
+                        from .native_solve import _caching
+
+                        problem = _caching(problem, fmt or "coo")
                     n, m = problem.num_vars, problem.num_cons
                     vw = rng.integers(-3, 4, size=n)
                     cw = rng.integers(-3, 4, size=m)
@@ -87,8 +92,12 @@ def reference_transformation(tier="quick", seed=0, only=None):
                             fail("C04:cons", inp, (tp.cons(xi).tolist(), ref["cons"].tolist()))
                         if not eq(tp.cons_jac(xi).toarray(), ref["jac"]):
                             fail("C04:cons_jac", inp, "entries differ")
+                        if not (eq(tp.cons_jac(xi).toarray(), ref["jac"]) and eq(tp.cons(xi), ref["cons"])):
+                            fail("C04:cons_jac/cons_evaluated_a_second_time_at_the_same_point", inp, "entries differ on re-evaluation")
                     if not eq(tp.lag_hess(xi, yi).toarray(), ref["hess"]):
                         fail("C04:lag_hess", inp, "entries differ")
+                    if not eq(tp.lag_hess(xi, yi).toarray(), ref["hess"]):
+                        fail("C04:lag_hess_evaluated_a_second_time_at_the_same_point", inp, "entries differ on re-evaluation")
                     # round trip and starting slacks
                     xu = np.clip(rng.uniform(-1, 1, n), problem.var_lb, problem.var_ub)
                     yu = rng.uniform(-1, 1, m)
